@@ -717,6 +717,17 @@ def gen_all_algos_plan(rng, tier="quick", stateful=False, random_algos=True):
         ws = [rng.random() for _ in names]
         tot = sum(ws) / 0.9
         root["algos"] = [sched_spec(rng, dates), {"a": "WeighSpecified", "weights": {n: round(w / tot, 4) for n, w in zip(names, ws)}}, {"a": "Rebalance"}]
+        if rng.random() < 0.4:
+            # a parent with both kinds of children: sub-strategies and securities of its own, picked by a full stock-algo stack
+            # (its universe then carries price-index columns written as the run proceeds next to supplied price columns)
+            own = rng.sample(tickers, rng.randint(1, len(tickers)))
+            root["children"] += [{"k": "X", "name": t, "cls": "Security", "mult": 1.0, "decl": rng.choice(["str", "obj"])} for t in own]
+            root["algos"] = stack(own)
+            if rng.random() < 0.5:
+                # selection by the number of observations in a trailing window (what counts as 'has data' by a date)
+                root["algos"] = [sched_spec(rng, dates), {"a": "SelectHasData", "kw": {"lookback": {"days": gap * rng.randint(2, 6)}, "min_count": rng.randint(2, 5)}}, {"a": "WeighEqually"}, {"a": "Rebalance"}]
+            _restrict_all(root, own)
+            fired["parent_with_strategies_and_securities"] = 1
     else:
         root["algos"] = stack(tickers)
     # declared universes (strings / objects): the universe filter and lazy creation paths
